@@ -107,6 +107,8 @@ class C03(Prop):
         viol = None
         applied = []
         for op in ops:
+            if op[0] not in ("add_root", "add_child"):
+                break          # explicit case["ops"]: everything after the build goes through the judged loop below
             ok, err = drv.apply(op)
             applied.append(op)
             steps.append({"ok": ok, "err": err, "snap": snapshot(drv.ttn), "raws": {k: np.array(v) for k, v in drv.ttn._tensors.data.items()},
